@@ -10,6 +10,7 @@ from __future__ import annotations
 
 import copy
 import io
+import random
 import pathlib
 import pickle
 
@@ -764,6 +765,7 @@ def gen_transform_args(name, s, rng):
     import pandera as pa
     is_df = isinstance(o, pa.DataFrameSchema) and s.spec["backend"] == "pandas" and not isinstance(o, pa.MultiIndex)
     invalid = rng.random() < 0.3
+    noop = random.Random(rng.getrandbits(32)).random() < 0.15     # a request that changes nothing must still return a new schema
     if name in ("copy", "deepcopy"):
         return {}
     if name == "share_columns":
@@ -778,6 +780,16 @@ def gen_transform_args(name, s, rng):
         return {"checks": [gg.builtin_check("int64")]}
     import pandera.polars as pap
     is_pl_df = isinstance(o, pap.DataFrameSchema) and s.spec["backend"] == "polars"
+    if noop and (is_df or is_pl_df) and name in ("rename_columns", "remove_columns", "add_columns", "update_columns", "select_columns"):
+        if name == "rename_columns":
+            return {"map": ({c: c for c in cols[:1]} if rng.random() < 0.5 else {})}
+        if name == "remove_columns":
+            return {"cols": []}
+        if name == "add_columns":
+            return {"cols": {}, "backend": s.spec["backend"]}
+        if name == "update_columns":
+            return {"upd": {}}
+        return {"cols": list(cols)} if cols else None
     if is_pl_df and name in ("add_columns", "remove_columns", "update_column", "update_columns", "rename_columns", "select_columns"):
         gg = world.SpecGen(rng, want_callbacks=0.3, backend="polars")
         if name == "add_columns":
